@@ -524,8 +524,29 @@ func (self *Analyzer) TypeCheck(got ast.Type, expected ast.Type, options TypeChe
 
 			for expectedIdx, expectedParam := range expectedFnParams.Params {
 				var foundParam *ast.FunctionTypeParam = nil
-				for _, gotParam := range gotFnParams.Params {
+				for gotIdx, gotParam := range gotFnParams.Params {
 					if expectedParam.Name.Ident() == gotParam.Name.Ident() {
+						// Arguments are passed by position: a parameter of this name at another position does not count.
+						if gotIdx != expectedIdx && options.IgnoreFnParamNameMismatches {
+							// Names do not matter here: the parameter at the expected position decides.
+							break
+						}
+						if gotIdx != expectedIdx {
+							return newCompatibilityErr(
+								diagnostic.Diagnostic{
+									Level:   diagnostic.DiagnosticLevelError,
+									Message: fmt.Sprintf("Parameter '%s' is at position %d, expected at position %d", expectedParam.Name.Ident(), gotIdx+1, expectedIdx+1),
+									Notes:   []string{"Arguments are passed by position: the parameters of both function types must be declared in the same order"},
+									Span:    gotFn.ParamsSpan,
+								},
+								&diagnostic.Diagnostic{
+									Level:   diagnostic.DiagnosticLevelHint,
+									Message: "Parameter expected due to this",
+									Notes:   nil,
+									Span:    expectedParam.Name.Span(),
+								},
+							)
+						}
 						foundParam = &gotParam
 						break
 					}
